@@ -35,7 +35,8 @@ CHECKS = {
             "All 2^16 first words and all continuation words symbolically: every valid encoding of the 238 implemented forms consumes its encoded length "
             "and is not rejected; the 27 patterns of the listed unimplemented instructions have no Ok path; traces partition the input space; the set of "
             "successfully executed word sequences outside all valid encodings is contained in the reviewed table of reserved-bit patterns the emulator "
-            "ignores (a continuation word of the wrong group accepted under a prefix is reported).", "4 C07"),
+            "ignores (a continuation word of the wrong group accepted under a prefix is reported); a form whose every deviating execution has exactly "
+            "the effect of a sibling form with the same operand fields is reported as decoded as the wrong instruction.", "4 C07"),
     "C08": ("abstract interpretation of MIR (BDD bit-vector domain): address operand of every bus access vs manual EA",
             "Every Bus::read/Bus::write address reached from an instruction, and every address-register write-back, equals the manual's EA modulo 2^24 "
             "for all register values including non-zero upper bytes and wrapping sums.", "4 C08"),
@@ -50,7 +51,7 @@ CHECKS = {
     "C19": ("abstract interpretation of MIR with symbolic address, count and bus-controller registers; BDD equality with the reference cost function",
             "Complete decision table of calc_state_with_addr for the six kinds, all addresses, all ABWCR/ASTCR/WCRH/WCRL/DRCRA values, counts 0-18: "
             "equals the reference (1 / 2 / 2 / 3+w / 4+w, doubled for word kinds on an 8-bit bus), linear in the count, independent of other areas; "
-            "calc_state costs at operating_pc and rejects L/M.", "4 C19"),
+            "calc_state costs at operating_pc and rejects L/M; panics of the cost function are judged on all addresses.", "4 C19"),
     "C10": ("abstract interpretation of request_interrupt / try_interrupt over a symbolic controller state + explicit fixpoint over the abstract controller states "
             "(aux fields x queue emptiness), starvation-cycle search, who-may-call tables",
             "Inductive over all request/boundary histories at the abstraction (queue = pending / pending>=2 + push/pop effects): in every reachable "
@@ -61,14 +62,17 @@ CHECKS = {
             "For all counter values, charges, PCs: error propagation, Ok only at PC == exit address, one time base (3 x charge added to the total, mirrored to "
             "the bus before peripherals, same amount given to peripherals), sync exactly at each 2,000,000 crossing with the new total, counter invariant; "
             "host-clock taint reaches no guest-visible value or effect argument; no nondeterminism source reachable from run; float->Duration conversions "
-            "are non-negative by construction (sign analysis), so host time cannot panic the run.", "4 C13"),
+            "are non-negative by construction (sign analysis), so host time cannot panic the run; side conditions of the summaries: nothing reachable "
+            "from a summarised step stores into Cpu.state_sum / Bus.cpu_state_sum (who-may-write), and every instruction leaves the upper byte of the "
+            "PC field clear (taken from the instruction-level analysis) so that the 32-bit exit test is exact.", "4 C13"),
     "C18": ("abstract interpretation over abstract strings (terms): message loop of run, parse_u8/parse_ioport, send worker; call-chain facts of the channel plumbing",
             "Two consecutive symbolic lines per batch: the second is always fetched unless the first is cmd:stop; keyword dispatch, pause flag function, "
             "parse rules (3 fields, hex, errors swallowed, no panic), written text == escape(m)+newline (replace-chain term, or per-element transducer "
             "check over all byte / scalar values for piecewise-built text), one write+flush per message; receive worker (CFG path rules): on every path "
             "between two read_line calls the line buffer is reset and the line is forwarded at most once.", "4 C18"),
     "C16": ("abstract interpretation of the three port handlers over array abstractions (symbolic port number and values); cofactor test",
-            "Routing: for all 2^32 addresses Bus::write invokes the DDR / DR handler exactly for the 11 DDR / DR addresses of ports 1-B, with the "
+            "Composed rule: Bus::write itself (whatever it calls) equals the per-bit reference for every DDR / DR window address and changed value; the bus "
+            "clock used as time stamp is written only by the run loop's accounting. Routing: for all 2^32 addresses Bus::write invokes the DDR / DR handler exactly for the 11 DDR / DR addresses of ports 1-B, with the "
             "written address and value, whenever the value differs from the stored one (a window address that is not routed, or a routed address outside "
             "the window, is reported; handler panics are judged on the addresses really routed). Per bit, all values, all 11 ports: stored DR after DR/DDR/pin events, pin recording, isolation of the port's three cells, invalid ports "
             "ignored, every step announces DR'&DDR' with the current state count or leaves the driven value unchanged; latch retention refuted by a "
